@@ -142,12 +142,15 @@ def generate(rng, i, tier):
                 opsl[-1]["after_fault"] = rng.choice(["retry", "retry", "revert"])
         elif k == "remove":
             opsl.append({"op": "remove", "group": g})
+            if rng.random() < 0.3:
+                # the delete dies part-way (I/O error after one file is gone); the caller asks again
+                opsl[-1]["fault_at"] = rng.randint(1, 3)
         elif rng.random() < 0.4:
             # the caller goes on with the OTHER of two long-lived instances
             opsl.append({"op": "swap"})
         else:
             opsl.append({"op": "restart"})
-    return {"seed": rng.getrandbits(32), "listdir_salt": rng.choice([None, rng.getrandbits(16)]), "ops": opsl, "clock": rng.choice(["frozen", "frozen", "tick", "jumps"]), "log": rng.choice(["error"] * 5 + ["debug", "info"]), "inputs_prefix": rng.choice([""] * 4 + ["./", ".//"])}
+    return {"seed": rng.getrandbits(32), "listdir_salt": rng.choice([None, rng.getrandbits(16)]), "ops": opsl, "clock": rng.choice(["frozen", "frozen", "tick", "jumps"]), "log": rng.choice(["error"] * 5 + ["debug", "info"]), "inputs_prefix": rng.choice([""] * 4 + ["./", ".//"]), "inputs_suffix": rng.choice([""] * 4 + ["/"])}
 
 
 def reductions(sc):
@@ -179,6 +182,8 @@ def reductions(sc):
         yield with_(sc, log="error")
     if sc.get("inputs_prefix"):
         yield with_(sc, inputs_prefix="")
+    if sc.get("inputs_suffix"):
+        yield with_(sc, inputs_suffix="")
 
 
 def _strip(lst):
@@ -327,7 +332,7 @@ def _disk(out, model, step):
 def execute(sc):
     out = Out()
     seams.reset(sc["seed"], listdir_salt=sc.get("listdir_salt"))
-    with W.World(log_level=sc.get("log", "error"), inputs_prefix=sc.get("inputs_prefix", "")):
+    with W.World(log_level=sc.get("log", "error"), inputs_prefix=sc.get("inputs_prefix", ""), inputs_suffix=sc.get("inputs_suffix", "")):
         cs = ops.new_csvpaths()
         cs_alt = None
         model = {}
@@ -417,8 +422,25 @@ def execute(sc):
                 if g not in model:
                     out.log(step, "noop")
                     continue
-                with ops.quiet():
-                    cs.paths_manager.remove_named_paths(g)
+                if op.get("fault_at"):
+                    from ..iofault import IOFault
+
+                    with IOFault(at=op["fault_at"], under=[os.path.join("inputs", "named_paths")]) as fst:
+                        try:
+                            with ops.quiet():
+                                cs.paths_manager.remove_named_paths(g)
+                        except Exception as e:  # noqa: BLE001
+                            if not fst["fired"] or (not ops.in_repo(e) and not isinstance(e, OSError)):
+                                raise
+                    if fst["fired"]:
+                        out.fault("io_error")
+                        cls.append("fault@" + fst["what"].split(" ")[0])
+                        out.probe("remove retried after an I/O error inside it")
+                        with ops.quiet():
+                            cs.paths_manager.remove_named_paths(g)
+                else:
+                    with ops.quiet():
+                        cs.paths_manager.remove_named_paths(g)
                 del model[g]
                 cls.append(g)
             elif k == "swap":
@@ -438,6 +460,7 @@ def execute(sc):
         out.probe("replace", False)
         out.probe("group added from a file", False)
         out.probe("add retried after an I/O error inside it", False)
+        out.probe("remove retried after an I/O error inside it", False)
         out.probe("previous content put back after a failed add", False)
         out.states.append(json.dumps(sorted((g, st["versions"], [m["ident"] for m in st["members"]]) for g, st in model.items())))
         out.runs = len(sc["ops"])
